@@ -113,6 +113,16 @@ def analyse(fn, accepted):
             return None
         return judge(st.copy(C=frozenset(C)))
 
+    def kval(e, st):
+        """value of a counter expression under the known constants: v, v++ (already stepped), ++v"""
+        d = dict(st.K)
+        if is_var(e) and e['name'] in d:
+            return d[e['name']]
+        if isinstance(e, dict) and e.get('k') == 'un' and e.get('op') in ('++', '--') and is_var(e.get('e')) and e['e']['name'] in d:
+            v = d[e['e']['name']]
+            return (v - 1 if e['op'] == '++' else v + 1) if e.get('postfix') else v
+        return None
+
     def strip_assign(e):
         """`(ch = *p++)` used as a value: the value is the assigned variable"""
         while isinstance(e, dict) and e.get('k') == 'bin' and e.get('op') == '=' and is_var(e.get('l')):
@@ -126,7 +136,13 @@ def analyse(fn, accepted):
             subj = strip_assign(e.cond)
             st2, is_s = subject(subj, st)
             if not is_s:
-                # a switch over a counter etc.: constants of locals
+                # a switch over a counter etc.: follow the known constants of locals
+                kv = kval(subj, st)
+                if kv is not None:
+                    if e.label == 'case' and kv not in (e.vs or []):
+                        return None
+                    if e.label == 'default' and kv in (e.notin or []):
+                        return None
                 return st
             if e.label == 'case':
                 C = st2.C & frozenset(v & 255 for v in (e.vs or []))
@@ -146,6 +162,11 @@ def analyse(fn, accepted):
         st2, is_s = subject(l, st)
         if is_s and isinstance(c, int) and op in ('==', '!=', '<', '<=', '>', '>='):
             return refine(st2, op, c & 255 if c >= 0 else c)
+        if not is_s and isinstance(c, int):
+            kv = kval(l, st)
+            if kv is not None and op in ('==', '!=', '<', '<=', '>', '>='):
+                if not {'==': kv == c, '!=': kv != c, '<': kv < c, '<=': kv <= c, '>': kv > c, '>=': kv >= c}[op]:
+                    return None
         return st2 if is_s else st
 
     def eval_bool(e, st):
@@ -185,6 +206,7 @@ def analyse(fn, accepted):
             if is_var(lhs):
                 v = lhs['name']
                 rhs = ev.get('rhs')
+                st0 = st
                 K = tuple(x for x in st.K if x[0] != v)
                 H = st.H - {v}
                 st = st.copy(K=K, H=H)
@@ -196,7 +218,9 @@ def analyse(fn, accepted):
                     if isinstance(c, int) and abs(c) < 1 << 40:
                         return st.copy(K=tuple(sorted(st.K + ((v, c),))))
                 if ev.get('op') == '+=' and isinstance(rhs, dict):
-                    accum.setdefault(s.key, (s, set()))[1].add(st)
+                    accum.setdefault(s.key, (s, set()))[1].add(st0)
+                if ev.get('op') in ('++', '--') and v in dict(st0.K) and abs(dict(st0.K)[v]) < 64:
+                    return st.copy(K=tuple(sorted(st.K + ((v, dict(st0.K)[v] + (1 if ev['op'] == '++' else -1)),))))
                 return st
         if ev['k'] == 'decl' and ev.get('var') and ev.get('init') is not None:
             v = ev['var']
